@@ -69,8 +69,8 @@ def givensLayer (m n k : Nat) : List (Nat × Nat) :=
 /-- positions `(l, k)` visited by the left-unitary stage of `givens_decomposition`, in order
 (`for k in reversed(range(n - m + 1, n)): for l in range(m - n + k)`) -/
 def givensLeft (m n : Nat) : List (Nat × Nat) :=
-  ((List.range (m - 1)).map (fun t => n - m + 1 + t)).reverse.flatMap fun k =>
-    (List.range (m + k - n)).map fun l => (l, k)
+  -- `reversed(range(n - m + 1, n))` = `n - 1 - t` for `t = 0, …, m - 2`
+  (List.range (m - 1)).flatMap fun t => (List.range (m + (n - 1 - t) - n)).map fun l => (l, n - 1 - t)
 
 /-- `range(2 * n - 1)` of `fermionic_gaussian_decomposition` -/
 def gaussDepth (n : Nat) : Nat := 2 * n - 1
